@@ -196,7 +196,7 @@ def _config_cases(draw):
     T["signed"]["delegations"][role] = T["signed"]["delegations"][c["role"]]
     calls.append(["verify_delegation", role, c["U"], T, c["gpg"]])
     cfg = draw(configrun.configs)
-    cfg["stdout"] = draw(st.sampled_from([None, "closed", "closed"]))
+    cfg["stdout"] = draw(st.sampled_from([None, "closed", "broken"]))
     cfg["PYTHONIOENCODING"] = draw(st.sampled_from(["ascii", "ascii", "utf-8", None]))
     return {"calls": calls, "config": cfg}
 
@@ -208,7 +208,19 @@ def check_config(case):
     return {"nontrivial": True, "labels": labels, "count": count}
 
 
+def _interrupted_sweep_cases():
+    from props import C12
+    return C12._sweep_cases().map(lambda c: dict(c, entry='verify_delegation', kind=c["kind"] if c["kind"] in ['invalid', 'unauthorized'] else 'invalid'))
+
+
+def check_interrupted_sweep(case):
+    from props import C12
+    return C12.check_fault_sweep(case)
+
+
 UNITS = [
+    Unit("interrupted_sweep", check_interrupted_sweep, strategy=_interrupted_sweep_cases, quick=18, thorough=500, shards_quick=3,
+         doc="every line event and every C-level call of one verify_delegation interrupted once on a fresh envelope, each followed by a normal retry of the same envelope"),
     Unit("config", check_config, strategy=_config_cases, quick=24, thorough=400, shards_quick=8, shrink=False,
          doc="type binding in fresh interpreters: closed / ASCII stdout with non-ASCII role names, logging level, -O, warnings, environment variables"),
     Unit("type_binding", check_binding, strategy=_binding_cases, quick=800, thorough=30000,
